@@ -23,14 +23,16 @@ EXTENDS Toposort
    priorities[nodes.pop()] = -len(priorities)   Prio (DistinctPrio = FALSE)
    min(deps, key=priorities.__getitem__)   any minimiser (ties: set iteration order)
 
-   DistinctPrio = TRUE is the repaired numbering (count the pops), see the
-   proposed fix: priorities are then pairwise distinct.                        *)
-CONSTANT DistinctPrio
+   numbering = "written" is the code as it stands; numbering = "repaired" counts the
+   pops instead (proposed fix): priorities are then pairwise distinct.  Both are
+   explored, the variable never changes during a run.                          *)
 
 VARIABLES g, fn, start,              \* the call: graph, "toposort" | "getcycle", start key set
+          numbering,                 \* "written" | "repaired"
           todo, nodes, seen, completed, ordered, pc, result
 
-tvars == <<g, fn, start, todo, nodes, seen, completed, ordered, pc, result>>
+tvars == <<g, fn, start, numbering, todo, nodes, seen, completed, ordered, pc, result>>
+DistinctPrio == numbering = "repaired"
 
 \* priorities assigned while popping `popped` (top first), then nxt
 RECURSIVE PrioFold(_, _, _)
@@ -69,13 +71,13 @@ CycleResults(nxt) ==
 
 Perms(S) == { s \in [1..Cardinality(S) -> S] : \A i, j \in DOMAIN s : i # j => s[i] # s[j] }
 
-ImplInit(graph, f, keys) ==
-  /\ g = graph /\ fn = f /\ start = keys
+ImplInit(graph, f, keys, nb) ==
+  /\ g = graph /\ fn = f /\ start = keys /\ numbering = nb
   /\ todo = keys /\ nodes = <<>> /\ seen = {} /\ completed = {} /\ ordered = <<>>
   /\ pc = "outer" /\ result = [res |-> "none"]
 
 Finish(r) == /\ pc' = "done" /\ result' = r
-             /\ UNCHANGED <<g, fn, start, todo, nodes, seen, completed, ordered>>
+             /\ UNCHANGED <<g, fn, start, numbering, todo, nodes, seen, completed, ordered>>
 
 Outer ==
   /\ pc = "outer"
@@ -85,14 +87,14 @@ Outer ==
             /\ todo' = todo \ {key}
             /\ IF key \in completed THEN UNCHANGED <<nodes, pc>>
                ELSE nodes' = <<key>> /\ pc' = "inner"
-            /\ UNCHANGED <<g, fn, start, seen, completed, ordered, result>>
+            /\ UNCHANGED <<g, fn, start, numbering, seen, completed, ordered, result>>
 
 Inner ==
   /\ pc = "inner"
-  /\ IF nodes = <<>> THEN pc' = "outer" /\ UNCHANGED <<g, fn, start, todo, nodes, seen, completed, ordered, result>>
+  /\ IF nodes = <<>> THEN pc' = "outer" /\ UNCHANGED <<g, fn, start, numbering, todo, nodes, seen, completed, ordered, result>>
      ELSE LET cur == Last(nodes) IN
           IF cur \in completed
-          THEN nodes' = Front(nodes) /\ UNCHANGED <<g, fn, start, todo, seen, completed, ordered, pc, result>>
+          THEN nodes' = Front(nodes) /\ UNCHANGED <<g, fn, start, numbering, todo, seen, completed, ordered, pc, result>>
           ELSE LET seen1 == seen \cup {cur}
                    live  == g[cur] \ completed
                    hits  == live \cap seen1
@@ -102,19 +104,20 @@ Inner ==
                   ELSE IF live # {}
                   THEN /\ \E p \in Perms(live) : nodes' = nodes \o p
                        /\ seen' = seen1
-                       /\ UNCHANGED <<g, fn, start, todo, completed, ordered, pc, result>>
+                       /\ UNCHANGED <<g, fn, start, numbering, todo, completed, ordered, pc, result>>
                   ELSE /\ ordered' = IF fn = "toposort" THEN Append(ordered, cur) ELSE ordered
                        /\ completed' = completed \cup {cur}
                        /\ seen' = seen \ {cur}
                        /\ nodes' = Front(nodes)
-                       /\ UNCHANGED <<g, fn, start, todo, pc, result>>
+                       /\ UNCHANGED <<g, fn, start, numbering, todo, pc, result>>
 
 ImplNext == Outer \/ Inner \/ (pc = "done" /\ UNCHANGED tvars)
 
 \* transcription => contract, for runs that return or raise
 Returned      == pc = "done" /\ result.res \notin {"diverged", "valueerror"}
 ContractHolds == Returned => Accepts(g, fn, start, result)
-NoDivergence  == pc = "done" => result.res # "diverged"
+\* the repaired numbering always terminates; the numbering as written does not (known finding)
+NoDivergence  == (pc = "done" /\ numbering = "repaired") => result.res # "diverged"
 NoValueError  == pc = "done" => result.res # "valueerror"
 \* structural invariants of the traversal the comments in the Python code claim
 SeenCompletedDisjoint == seen \cap completed = {}
